@@ -1,7 +1,8 @@
 --------------------------- MODULE SectionsTrace ---------------------------
 (* Recorded operation sequences of real SectionOutputs checked against Sections.
-   event: [op, s, lines, n,          -- the call: "init" | "create" | "write" | "overwrite" | "clear" | "clearn",
-                                        section (creation index), the visible lines of the message, n of clear(n)
+   event: [op, s, lines, n,          -- the call: "init" | "create" | "write" | "overwrite" | "clear" | "clearn" | "quiet" |
+                                        "verb"; section (creation index); the visible lines of the message; n = lines
+                                        of clear(n) / message-level flag of a write / 0|1 of set_quiet / verbosity
            w, ansi,                  -- "init": terminal width (COLUMNS), whether the output decorates
            exc,                      -- "" or the class name of an exception that escaped the call
            ops,                      -- the bytes the call added to the stream, tokenised (engine/termbytes.py)
@@ -23,7 +24,7 @@ E == T[l]
 
 TInit == /\ tid \in 1..NTraces /\ l = 1
          /\ LET e == Traces[tid][1] IN
-            /\ ansi = e.ansi /\ pre = e.lines /\ content = <<>> /\ plog = <<>> /\ secs = <<>>
+            /\ ansi = e.ansi /\ pre = e.lines /\ content = <<>> /\ plog = <<>> /\ gate = <<>> /\ secs = <<>>
             /\ term = TermNew(e.w)
             /\ last = Event("none", 0, NoLines, 0, <<>>)
          /\ taint = FALSE
@@ -58,11 +59,12 @@ Clauses ==
 TStart == /\ l = 1 /\ Is("init") /\ Adv
           /\ term' = ApplyOps(term, E.ops)
           /\ last' = Event("init", 0, E.lines, E.w, E.ops)
-          /\ UNCHANGED <<ansi, pre, content, plog, secs, taint>>
+          /\ UNCHANGED <<ansi, pre, content, plog, gate, secs, taint>>
           /\ Check(tid, l, "H.init", "", OnlyPlain(E.ops) /\ Screen(term') = Visible(FoldAll(pre, term.w)))
 
 TCreate == /\ l > 1 /\ Is("create") /\ Adv
            /\ content' = Append(content, <<>>) /\ secs' = Append(secs, [content |-> <<>>, lines |-> 0])
+           /\ gate' = Append(gate, NewGate)
            /\ term' = ApplyOps(term, E.ops)
            /\ last' = Event("create", E.s, NoLines, 0, E.ops)
            /\ UNCHANGED <<ansi, pre, plog, taint>>
@@ -76,12 +78,23 @@ TOp == /\ l > 1 /\ l <= Len(T) /\ E.op \in {"write", "overwrite", "clear", "clea
           /\ content' = e.pc /\ plog' = e.pl /\ secs' = e.a.secs
           /\ term' = ApplyOps(term, E.ops)
           /\ last' = Event(E.op, E.s, E.lines, E.n, E.ops)
-          /\ UNCHANGED <<ansi, pre>> /\ taint' = TaintNow
+          /\ UNCHANGED <<ansi, pre, gate>> /\ taint' = TaintNow
           /\ Clauses
           /\ Note(tid, l, "A.ops", Norm(E.ops) = Norm(e.a.ops))
 
+\* set_quiet / set_verbosity on one section: expected to be silent (A-clause); whatever reaches the stream is
+\* applied to the terminal and the screen clause evaluated as after any other call
+TGate == /\ l > 1 /\ l <= Len(T) /\ E.op \in {"quiet", "verb"} /\ Adv
+         /\ Check(tid, l, "H.domain", "", E.s \in 1..Len(secs) /\ E.n \in {0, 1, 2, 4})
+         /\ gate' = IF E.op = "quiet" THEN [gate EXCEPT ![E.s].quiet = (E.n = 1)] ELSE [gate EXCEPT ![E.s].verb = E.n]
+         /\ term' = ApplyOps(term, E.ops)
+         /\ last' = Event(E.op, E.s, NoLines, E.n, E.ops)
+         /\ UNCHANGED <<ansi, pre, content, plog, secs, taint>>
+         /\ Clauses
+         /\ Note(tid, l, "A.ops", E.ops = <<>>)
+
 TDone == /\ l = Len(T) + 1 /\ l' = l + 1 /\ tid' = tid /\ UNCHANGED <<vars, taint>> /\ Accept(tid)
 
-TNext == TStart \/ TCreate \/ TOp \/ TDone
+TNext == TStart \/ TCreate \/ TOp \/ TGate \/ TDone
 TSpec == TInit /\ [][TNext]_tvars
 =============================================================================
